@@ -26,7 +26,7 @@ META = {
     "id": "C19",
     "level": "proof",
     "technique": "Coq theorems (unbounded, closed) about an executable model of the fixed-point field codec, the g96 / extended-xyz / lammpstrj line formats, velocity reversal, frame extraction, swap_integer, the TRR header/data decoder, and the mdp / CP2K / LAMMPS template editors + lock-step of the extracted model against the real functions on generated files + the property's statement evaluated on the implementation",
-    "text": "Unbounded theorems: float('{:w.df}'.format(x)) is x rounded half-even to d decimals (error <= half a unit of the last decimal) for every width; the field has the format width iff width_guard, which is a bound on the magnitude (g96: -1e4 < x < 1e5); g96 atom lines (24-character label + 3 fields, read by slicing) and box lines, xyz atom lines and Box: headers round-trip; the guard is necessary for g96 (witness) and unnecessary for xyz; the lammpstrj reader returns the rows of frame k sorted by id whatever order they were written in; reversing velocities changes the velocity signs only and printing -x parses to -round(x); frame k of a multi-frame xyz / lammpstrj / TRR file is frame k; swap_integer is byte reversal of the low 32 bits and an involution on them; TRR header and frame decode(encode) = id for both byte orders and both precisions, precision detection; mdp editing replaces exactly the requested keys, appends the missing ones once, keeps every other line byte-identical, reads back the requested values and is idempotent on the whole text; CP2K data-line update exact + idempotent, a section created from a dict is a fixed point, tree update touches only the target node; LAMMPS variable substitution exact, output free of requested variables, second application unchanged with all variables reported missing. Format constants (widths, precisions, slice positions, TRR magic/version/header layout, swap masks) are regenerated from /repo's source on every run and pinned by C19_format_contract.",
+    "text": "Unbounded theorems: float('{:w.df}'.format(x)) is x rounded half-even to d decimals (error <= half a unit of the last decimal) for every width; the field has the format width iff width_guard, which is a bound on the magnitude (g96: -1e4 < x < 1e5); g96 atom lines (24-character label + 3 fields, read by slicing) and box lines, xyz atom lines and Box: headers round-trip; the guard is necessary for g96 (witness) and unnecessary for xyz; the lammpstrj reader returns the rows of frame k sorted by id whatever order they were written in; reversing velocities changes the velocity signs only and printing -x parses to -round(x); frame k of a multi-frame xyz / lammpstrj / TRR file is frame k; swap_integer is byte reversal of the low 32 bits and an involution on them; TRR header and frame decode(encode) = id for both byte orders and both precisions, precision detection; mdp editing replaces exactly the requested keys, appends the missing ones once, keeps every other line byte-identical, reads back the requested values and is idempotent on the whole text; CP2K data-line update exact + idempotent, a section created from a dict is a fixed point, tree update touches only the target node (same-named siblings untouched, path dictionary unchanged) and is idempotent, and the printed text reads back as the same forest (so comparing trees is comparing files); LAMMPS variable substitution exact, output free of requested variables, second application unchanged with all variables reported missing. Format constants (widths, precisions, slice positions, TRR magic/version/header layout, swap masks) are regenerated from /repo's source on every run and pinned by C19_format_contract.",
     "note": "Trusted: Coq kernel (all theorems closed under the global context); extraction (ExtrOcamlBasic) + ocaml/c19_driver.ml; this harness (generators, file skeletons, hex encoding, struct packing of TRR test files, IEEE decoding of the model's byte groups, an independent CP2K tree parser used to compare outputs modulo sibling order). Not proved but checked on every generated value: Python's format()/float() correct rounding (model works on the exact rational of the float; float(s) must equal the double nearest to the model's decimal). numpy astype(str)/genfromtxt tokens are opaque shortest round-trip decimals (lammpstrj theorem is therefore `_partial`: row selection + canonical id sort only). LAMMPS str.replace is modelled on tokens (generated variables are never substrings of other tokens or values). LAMMPS reader needs >= 2 atoms (genfromtxt returns a 1-D array for one row): outside the claim, as in DESIGN. CP2K: at most two sections may share a title path (Python's set order decides which of three keeps the plain key); targets are upper case. The model is that of the code repaired by proposed_fixes/C19_modify_input_newline.diff, C19_cp2k_dict_data.diff and C19_lammps_repeated_variable.diff; on a tree without these repairs the oracle reports the concrete failing inputs.",
     "design_ref": "4/C19",
 }
@@ -899,7 +899,7 @@ def case_mdp(spec, tmp):
             c.fail(f"key {k!r} was not requested but its value changed from {v!r} to {after.get(k)!r}")
     if res2 != res:
         c.fail(f"second application changes the file: {res!r} -> {res2!r}")
-    c.tags.append("mdp_missing_no_newline" if (missing and text and not text.endswith("\n")) else "mdp")
+    c.tags.append("mdp_missing_no_newline" if (missing and text and not text.endswith("\n")) else "mdp_other")
     c.sample = {"mdp_in": text[:200], "settings": pairs, "mdp_out": res[:200]}
     return c
 
@@ -1137,7 +1137,6 @@ def case_cp2k_tree(spec, tmp):
     if not spec.get("dup_collision"):
         c.ask([f"cp2krefs {hxl(lines)}"], chk2)
     cp2k_tree_oracle(c, text, [tuple(u) for u in updates], removes, res, res2)
-    c.tags.append("cp2k_tree")
     c.sample = {"cp2k_in": text[:300], "updates": updates, "removes": removes, "cp2k_out": res[:300]}
     return c
 
@@ -1273,7 +1272,7 @@ def case_lammps_in(spec, tmp):
         res2, miss2 = run_write_for_run(os.path.join(tmp, "again.lmp"), out2, pairs)
         if res2 != res or (res2 is not None and sorted(miss2) != sorted(s)):
             c.fail(f"second application: text changed or not every variable reported missing ({miss2})")
-    c.tags.append("lammps_in")
+    c.tags.append("lammps_var_on_two_lines" if any(sum(k in ln.split() for ln in lines) > 1 for k in s) else "lammps_other")
     c.sample = {"lammps_in": text[:200], "settings": pairs}
     return c
 
